@@ -17,8 +17,9 @@
    This file: the syntax [expr3], the values [rval3] (data, builtins, closures = parameters,
    captured names, body, captured values), the reference semantics [ref_eval3], the
    representation relation [vrep3] and its stability, the static context [hdr3].
-   The compile-time theorem is in Proofs/CompileStatic3.v, the run-time theorem (by induction on
-   the reference derivation) in Proofs/CompileCorrect3.v.                                      *)
+   The compile-time theorem is in Proofs/CompileStatic3.v, the exec lemmas of the basic forms in
+   Proofs/CompileCorrect3.v, the run-time theorem (by induction on the reference derivation),
+   Vm::eval and the examples in Proofs/EvalFragment3.v.                                        *)
 From Coq Require Import String Lia FMapPositive.
 From MW Require Import Model.Base Model.F64 Model.Num Model.Datum Model.TransformDef Model.Transform
   Model.VmTypes Model.Heap Model.Gc Model.VmBase Model.Compile Model.Vm
